@@ -1,3 +1,4 @@
 import ElkVerif.AuditLib
 import ElkVerif.Props.C19
-#audit_obligations C19 [hexVal_hexDigit]
+#audit_obligations C19 [string_roundtrip, char_roundtrip, char_surrogate_witness, int_roundtrip, literal_value,
+  ofDigits_snoc, string_old_witness_nongraphic, string_old_witness_invalid, char_old_witness]
